@@ -36,12 +36,13 @@ func runC14(w *World, r *Report) {
 	hrCfgManagedProtocol(w, r, "R8")
 	hrWildcardConstant(w, r, "R2")
 	hrManageSendsEverything(w, r, "R5")
+	hrRestoreBeforeFallbackReload(w, r, "R5")
 	hrParamSegmentNonEmpty(w, r, "R3")
 	hrRevertUnmanageFlags(w, r, "R5")
 	hrLookupDeclaredWalksEveryPart(w, r, "R3")
 	// what the engine matches must be what was registered: the engine-side matchers of C03 (flows) and C13 (policies)
 	r.Borrow(w, runC03, map[string]string{"R4": "R3", "R6": "R3", "R7": "R3", "R8": "R3"})
-	r.Borrow(w, runC13, map[string]string{"R3": "R3"})
+	r.Borrow(w, runC13, map[string]string{"R1": "R3", "R3": "R3"})
 	hf := w.Fn(pkgConfig, "HaproxyEndpointFormat")
 	if hf == nil {
 		r.Undec("R1", "HaproxyEndpointFormat", token.NoPos, "function not found")
